@@ -107,7 +107,7 @@ UNITS.append(U(name='htp_normalize_parsed_uri', props=['C13', 'C12', 'C01'], kin
                sub='port rule for EVERY int64 result of the integer parser: 1..65535 => that value, flags untouched; anything else => -1 and HTP_HOSTU_INVALID; path pipeline order decode -> utf8 (convert xor validate) -> normalise, each once, on the copy',
                assumes=['stages, bstr copies and the integer parser replaced by contracts (the integer parser by its full result lattice; the stages by sequence-logging stubs)']))
 
-UNITS.append(U(name='htp_connp_tx_remove', props=['C01', 'C05', 'C10'], kind='contract', src=['htp_connection_parser.c'],
+UNITS.append(U(name='htp_connp_tx_remove', props=['C01', 'C05', 'C10', 'C04'], kind='contract', src=['htp_connection_parser.c'],
                enforce='htp_connp_tx_remove', contracts_inc=['c10_tx.h'],
                harness='void HARNESS(void) { htp_connp_t *c; htp_tx_t *t; htp_connp_tx_remove(c, t); CANARY(); }', defs=D, min_obl=5,
                sub='detaching a destroyed transaction: afterwards neither in_tx nor out_tx refers to it (also when it was the current transaction of BOTH directions), nothing else changes',
@@ -165,3 +165,37 @@ for d, rq, src in (('in', 'req', 'htp_request.c'), ('out', 'res', 'htp_response.
                    sub='%s side, REAL functions: the line a line-oriented state sees = bytes buffered earlier ++ unconsumed bytes of the chunk (a range of the chunk itself when nothing is buffered); '
                        'clear releases the buffer and marks everything read as consumed; the consumed count reported to the caller is the read offset; no leak, out-parameters untouched on failure' % ('request' if d == 'in' else 'response'),
                    assumes=['buffer size and pending length enumerated as constants 0..3 each (symbolic-size realloc/memcpy cannot be bit-blasted); cursor position symbolic', 'htp_log given an empty body in the harness']))
+
+
+# ---- htp_conn_remove_tx again, independent of the loop structure of the function (a seeded change replaced the search loop by an indexed store:
+# the loop-contract unit above then cannot be instrumented and answers UNDECIDED, which is not a verdict) -------------------------------------------
+RMTX_H = r'''
+static void rmtx_case(size_t cap, size_t first, size_t size) {                 /* constants at every call site */
+  htp_conn_t *conn = malloc(sizeof(*conn)); htp_list_array_t *l = malloc(sizeof(*l)); void **e = malloc(cap * sizeof(void *));
+  htp_tx_t *tx = malloc(sizeof(*tx)); htp_tx_t *other = malloc(sizeof(*other));
+  if (!conn || !l || !e || !tx || !other) { free(conn); free(l); free(e); free(tx); free(other); return; }
+  l->elements = e; l->max_size = cap; l->first = first; l->current_size = size; l->last = (first + size) % cap;
+  conn->transactions = l;
+  /* slots hold the transaction, another transaction, or NULL (a freed slot) - any arrangement; the transaction's own index field is ANY value:
+   * tx->index is the list size at creation and goes stale as soon as htp_connp_tx_freed has shifted freed slots off the front */
+  size_t where; VASSUME(where <= size);                                         /* where == size: the transaction is not in the list */
+  void *old[4];
+  for (size_t i = 0; i < size; i++) { _Bool nul; void *v = (i == where) ? (void *) tx : (nul ? NULL : (void *) other); e[(first + i) % cap] = v; old[i] = v; }
+  size_t idx; tx->index = idx; other->index = idx;
+  htp_status_t rc = htp_conn_remove_tx(conn, tx);
+  VASSERT(rc == (where < size ? HTP_OK : HTP_DECLINED), "OK exactly when the transaction was in the list");
+  VASSERT(l->current_size == size && l->first == first && l->max_size == cap, "removal replaces, it never shifts: the positions of the others stay valid");
+  for (size_t i = 0; i < size; i++) VASSERT(e[(first + i) % cap] == (i == where ? NULL : old[i]), "exactly the slot that held the transaction becomes NULL; every other slot keeps its content");
+  free(conn); free(l); free(e); free(tx); free(other);
+}
+void HARNESS(void) { size_t f, n; VASSUME(f < 4 && n <= 4);
+#define C(F, N) if (f == F && n == N) rmtx_case(4, F, N);
+#define R(F) C(F, 0) C(F, 1) C(F, 2) C(F, 3) C(F, 4)
+  R(0) R(1) R(2) R(3)
+  CANARY(); }'''
+UNITS.append(U(name='htp_conn_remove_tx_slots', props=['C04', 'C10', 'C01'], kind='bounded', src=['htp_connection.c'], link=['htp_list.c'], contracts_inc=[],
+               harness=RMTX_H, defs={'quick': {}}, flags_add=['--unwind', '6', '--unwinding-assertions'], min_obl=50, timeout=(300, 900),
+               bound='transaction list of capacity 4, every ring start and size 0..4, every arrangement of {the transaction, another one, freed slot}',
+               sub='REAL htp_conn_remove_tx + htp_list_array_*: exactly the slot that holds the transaction becomes NULL whatever tx->index says (the index goes stale after htp_connp_tx_freed), '
+                   'all other slots, the size and the ring position are untouched, OK iff it was in the list - stated without reference to the loop structure of the function',
+               assumes=['capacity 4 (all (first, size) pairs enumerated as constants); tx->index unconstrained']))
